@@ -85,79 +85,10 @@ def _classify(node: ast.BinOp, par: Dict[int, ast.AST]) -> Tuple[str, ast.AST]:
     return "other", node
 
 
-def check_c05(idx: Index, tier: str, res: Result) -> None:
-    res.explanation = ("Kind analysis over the SD engine: every time-advance expression (time-kinded +/- dt-kinded) in the consulted "
-                       "modules is discovered and followed to its consumer; it must pass through normalize() before it becomes the "
-                       "bound of an exclusive timerange, a dictionary key, the stored session clock or a comparison operand. "
-                       "timerange and Model.memoize are checked to normalise with the same base/offset/precision (siblings); the "
-                       "memo is probed, evaluated and filled under the normalised key; result tables are keyed by the range variable.")
-    res.rules = ["RAW: raw time sums vs sinks", "NORM: normalize() parameters agree between timerange and memoize",
-                 "KEY: tables keyed by normalised times", "TEMPLATE: time comparisons inside generated text"]
-    res.not_decided = ["that normalize()/precision_and_scale round correctly for every (start, dt, i) - float arithmetic on runtime values",
-                       "labels of agent-based runs (round + step*dt in the scheduler is outside this property's anchors)"]
-    nadv = 0
-    for rel in CONSULTED:
-        if rel not in idx.modules:
-            continue
-        for fi in idx.modules[rel].functions.values():
-            if "." in fi.qual.replace((fi.cls or "") + ".", "", 1) and not fi.qual.endswith(".setter"):
-                pass
-            par = _parents(fi.node)
-            for n in walk_no_nested(fi.node):
-                if isinstance(n, ast.BinOp) and isinstance(n.op, (ast.Add, ast.Sub)) and (
-                        (_time_like(n.left) and _dt_like(n.right)) or (_dt_like(n.left) and _time_like(n.right))):
-                    nadv += 1
-                    kind, cons = _classify(n, par)
-                    label = "%s: %s" % (fi.qual, src(n))
-                    if kind == "normalized":
-                        res.ob("RAW", label + " -> normalize()", True)
-                    elif kind == "log":
-                        res.ob("RAW", label + " -> log text only", True, nontrivial=False)
-                    elif kind == "range-bound":
-                        # exclusive range with a raw bound: the bound may exceed the next grid point by an ulp
-                        excl = not any(k.arg == "exclusive" and isinstance(k.value, ast.Constant) and k.value.value is False
-                                       for k in cons.keywords) and len(cons.args) < 4
-                        res.check("RAW", label + " -> timerange bound", not excl, fi.loc(n), fi.qual, src(cons)[:100],
-                                  "the exclusive upper bound of the range is the raw float sum %s: when the sum lands an ulp above the "
-                                  "next grid point (0.2+0.1 = 0.30000000000000004) the range yields one entry beyond the stop time"
-                                  % src(n), key="RAW/%s/range-bound=%s" % (fi.qual, src(n)))
-                    elif kind == "clock":
-                        res.check("RAW", label + " -> session clock", False, fi.loc(n), fi.qual, norm_stmt(cons),
-                                  "the session clock is advanced by a bare float addition (%s): labels such as 0.30000000000000004 "
-                                  "and 0.7999999999999999 appear in the step results and drift accumulates" % src(n),
-                                  key="RAW/%s/session-clock" % fi.qual)
-                    elif kind == "key":
-                        res.check("RAW", label + " -> dictionary key", False, fi.loc(n), fi.qual, src(cons)[:100],
-                                  "a raw float sum is used as a dictionary key", key="RAW/%s/key=%s" % (fi.qual, src(n)))
-                    elif kind == "compare":
-                        res.check("RAW", label + " -> comparison", False, fi.loc(n), fi.qual, src(cons)[:100],
-                                  "a raw float sum is compared with a grid time", key="RAW/%s/compare=%s" % (fi.qual, src(n)))
-                    else:
-                        raise AnalysisError("time arithmetic %s in %s flows into %s, which the kind analysis does not classify"
-                                            % (src(n), fi.qual, type(cons).__name__))
-    res.floor("time-advance expressions in the SD engine", nadv, 2)
-    # every range over the grid: the stop argument is a plain time value (inclusive range) or, for an exclusive
-    # range, not a raw sum (reported above)
-    nrange = 0
-    for rel in CONSULTED:
-        if rel not in idx.modules:
-            continue
-        for fi in idx.modules[rel].functions.values():
-            if fi.qual == "timerange":
-                continue
-            for c in iter_calls(fi.node, into_nested=False):
-                if call_name(c) == "timerange" and len(c.args) >= 3:
-                    nrange += 1
-                    stop = c.args[1]
-                    incl = any(k.arg == "exclusive" and isinstance(k.value, ast.Constant) and k.value.value is False for k in c.keywords) \
-                        or (len(c.args) >= 4 and isinstance(c.args[3], ast.Constant) and c.args[3].value is False)
-                    plain = _time_like(stop)
-                    res.check("RAW", "%s: %s ends at its stop time" % (fi.qual, src(c)[:70]), incl and plain, fi.loc(c), fi.qual, src(c)[:110],
-                              "the range %s is %s with stop argument '%s': a run must end exactly at its stop time (inclusive range "
-                              "over a plain time value)" % (src(c)[:80], "inclusive" if incl else "exclusive", src(stop)),
-                              key="RAW/%s/range=%s" % (fi.qual, src(stop)))
-    res.floor("timerange call sites in the SD engine", nrange, 5)
 
+def check_normalisation(idx: Index, res: Result) -> None:
+    """timerange and Model.memoize normalise with the same (base=dt, offset=start, precision=max(scale(start), scale(dt)));
+    the memo is probed, evaluated and filled under the normalised key.  Shared by C05 and C01."""
     # ---- timerange: advance normalised, yields the loop variable ---------------------------------------------------
     tr = idx.func(FP, "timerange")
     ps = params(tr.node)
@@ -232,6 +163,83 @@ def check_c05(idx: Index, tier: str, res: Result) -> None:
             res.check("KEY", "equation evaluated at the normalised time", [src(a) for a in n.args] == [K], memo.loc(n), memo.qual, src(n),
                       "the equation is evaluated at %s" % [src(a) for a in n.args], key="KEY/memoize/evaluate")
     res.floor("uses of the memo key in Model.memoize", uses, 4)
+
+
+
+def check_c05(idx: Index, tier: str, res: Result) -> None:
+    res.explanation = ("Kind analysis over the SD engine: every time-advance expression (time-kinded +/- dt-kinded) in the consulted "
+                       "modules is discovered and followed to its consumer; it must pass through normalize() before it becomes the "
+                       "bound of an exclusive timerange, a dictionary key, the stored session clock or a comparison operand. "
+                       "timerange and Model.memoize are checked to normalise with the same base/offset/precision (siblings); the "
+                       "memo is probed, evaluated and filled under the normalised key; result tables are keyed by the range variable.")
+    res.rules = ["RAW: raw time sums vs sinks", "NORM: normalize() parameters agree between timerange and memoize",
+                 "KEY: tables keyed by normalised times", "TEMPLATE: time comparisons inside generated text"]
+    res.not_decided = ["that normalize()/precision_and_scale round correctly for every (start, dt, i) - float arithmetic on runtime values",
+                       "labels of agent-based runs (round + step*dt in the scheduler is outside this property's anchors)"]
+    nadv = 0
+    for rel in CONSULTED:
+        if rel not in idx.modules:
+            continue
+        for fi in idx.modules[rel].functions.values():
+            if "." in fi.qual.replace((fi.cls or "") + ".", "", 1) and not fi.qual.endswith(".setter"):
+                pass
+            par = _parents(fi.node)
+            for n in walk_no_nested(fi.node):
+                if isinstance(n, ast.BinOp) and isinstance(n.op, (ast.Add, ast.Sub)) and (
+                        (_time_like(n.left) and _dt_like(n.right)) or (_dt_like(n.left) and _time_like(n.right))):
+                    nadv += 1
+                    kind, cons = _classify(n, par)
+                    label = "%s: %s" % (fi.qual, src(n))
+                    if kind == "normalized":
+                        res.ob("RAW", label + " -> normalize()", True)
+                    elif kind == "log":
+                        res.ob("RAW", label + " -> log text only", True, nontrivial=False)
+                    elif kind == "range-bound":
+                        # exclusive range with a raw bound: the bound may exceed the next grid point by an ulp
+                        excl = not any(k.arg == "exclusive" and isinstance(k.value, ast.Constant) and k.value.value is False
+                                       for k in cons.keywords) and len(cons.args) < 4
+                        res.check("RAW", label + " -> timerange bound", not excl, fi.loc(n), fi.qual, src(cons)[:100],
+                                  "the exclusive upper bound of the range is the raw float sum %s: when the sum lands an ulp above the "
+                                  "next grid point (0.2+0.1 = 0.30000000000000004) the range yields one entry beyond the stop time"
+                                  % src(n), key="RAW/%s/range-bound=%s" % (fi.qual, src(n)))
+                    elif kind == "clock":
+                        res.check("RAW", label + " -> session clock", False, fi.loc(n), fi.qual, norm_stmt(cons),
+                                  "the session clock is advanced by a bare float addition (%s): labels such as 0.30000000000000004 "
+                                  "and 0.7999999999999999 appear in the step results and drift accumulates" % src(n),
+                                  key="RAW/%s/session-clock" % fi.qual)
+                    elif kind == "key":
+                        res.check("RAW", label + " -> dictionary key", False, fi.loc(n), fi.qual, src(cons)[:100],
+                                  "a raw float sum is used as a dictionary key", key="RAW/%s/key=%s" % (fi.qual, src(n)))
+                    elif kind == "compare":
+                        res.check("RAW", label + " -> comparison", False, fi.loc(n), fi.qual, src(cons)[:100],
+                                  "a raw float sum is compared with a grid time", key="RAW/%s/compare=%s" % (fi.qual, src(n)))
+                    else:
+                        raise AnalysisError("time arithmetic %s in %s flows into %s, which the kind analysis does not classify"
+                                            % (src(n), fi.qual, type(cons).__name__))
+    res.floor("time-advance expressions in the SD engine", nadv, 2)
+    # every range over the grid: the stop argument is a plain time value (inclusive range) or, for an exclusive
+    # range, not a raw sum (reported above)
+    nrange = 0
+    for rel in CONSULTED:
+        if rel not in idx.modules:
+            continue
+        for fi in idx.modules[rel].functions.values():
+            if fi.qual == "timerange":
+                continue
+            for c in iter_calls(fi.node, into_nested=False):
+                if call_name(c) == "timerange" and len(c.args) >= 3:
+                    nrange += 1
+                    stop = c.args[1]
+                    incl = any(k.arg == "exclusive" and isinstance(k.value, ast.Constant) and k.value.value is False for k in c.keywords) \
+                        or (len(c.args) >= 4 and isinstance(c.args[3], ast.Constant) and c.args[3].value is False)
+                    plain = _time_like(stop)
+                    res.check("RAW", "%s: %s ends at its stop time" % (fi.qual, src(c)[:70]), incl and plain, fi.loc(c), fi.qual, src(c)[:110],
+                              "the range %s is %s with stop argument '%s': a run must end exactly at its stop time (inclusive range "
+                              "over a plain time value)" % (src(c)[:80], "inclusive" if incl else "exclusive", src(stop)),
+                              key="RAW/%s/range=%s" % (fi.qual, src(stop)))
+    res.floor("timerange call sites in the SD engine", nrange, 5)
+
+    check_normalisation(idx, res)
 
     # ---- the batch sweep and the step: tables keyed by the range variable -----------------------------------------------------
     sim = idx.try_func(SDSIM, "SdSimulation.__simulate")
